@@ -420,6 +420,25 @@ def rule_ctor(R):
                 ok = bb in dead
                 if not ok:
                     ok, _ = code.must_pass([0], [bb], via_blocks=latch_blocks)
+                if not ok:
+                    # built first, latched afterwards (e.g. the error is re-typed, then classified as fatal): every feasible
+                    # path from the construction to a return passes the latch (the explorer knows which variant was built)
+                    lbs = set(latch_blocks)
+                    leaves = paths.explore(code, bb, lambda t_: False, lambda b_, x_: x_ in lbs, max_paths=3000)
+                    rets = [lf for lf in leaves if lf["kind"] == "return"]
+                    ok = bool(rets) and all(lf["marked"] for lf in rets) and not any(lf["kind"] == "limit" for lf in leaves)
+                if not ok:
+                    # latched earlier under a test of the same error value (`if is_fatal(&err) { latch } .. match err { .. }`):
+                    # every *feasible* path to the construction passed the latch (variant constraints on call results)
+                    def any_call_root(t_):
+                        t_ = peel(t_)
+                        if isinstance(t_, tuple) and t_[0] == "await":
+                            t_ = peel(t_[1])
+                        return ("c%d" % t_[1]) if isinstance(t_, tuple) and t_[0] == "call" else False
+                    lbs = set(latch_blocks)
+                    leaves = paths.explore(code, 0, any_call_root, lambda b_, x_: x_ in lbs, stop_pred=lambda b_, x_, bb=bb: x_ == bb, max_paths=6000)
+                    stops = [lf for lf in leaves if lf["kind"] == "stop"]
+                    ok = bool(stops) and all(lf["marked"] for lf in stops) and not any(lf["kind"] == "limit" for lf in leaves)
                 R.ob("ctor/%s#%d" % (name, cnt), ok,
                      "Error::Disconnected constructed in Connection::%s must be preceded by the latch on every path "
                      "or sit on the dead branch of a LIVE test" % name, where=s["span"])
